@@ -9,6 +9,7 @@ package exported for the real Series / MosStack / Wrapper module.
 from __future__ import annotations
 
 import itertools
+import json
 
 from .. import build, oracle, pkgread, refsem
 from ..runner import jhash
@@ -64,6 +65,12 @@ def unit_specs():
           "insts": [{"name": "e0", "kind": "single", "of": ["leaf", "E1"], "tag": 1, "conns": {"a": ["sig", "a"], "b": ["sig", "b"]}},
                     {"name": "e1", "kind": "single", "of": ["leaf", "E2"], "tag": 2, "conns": {"x": ["bref", "bp", ["y"]], "y": ["bref", "bp", ["x"]]}}]}
     out.append(("ModBundle", ["mod", "UB"], [ub], {"a": 1, "b": 1}, {"bp": "B1"}))
+    # ... whose BUNDLE port is named like the attributes the generators create themselves (`Module.ports` does not list bundle ports:
+    # a fresh-name search that looks there only would let the generator's own array / net / instance replace the copied port)
+    for bname in ("units", "i", "inner"):
+        ubn = json.loads(json.dumps(ub).replace('"bp"', json.dumps(bname)))
+        ubn["name"] = "UB_" + bname
+        out.append(("ModBundle:" + bname, ["mod", ubn["name"]], [ubn], {"a": 1, "b": 1}, {bname: "B1"}))
     return out
 
 
